@@ -184,6 +184,9 @@ func (u *Universe) discharge(o *Obl, dir string, idx int, timeout int, needTwo b
 		return &Result{Obl: o, Status: "error", Output: err.Error()}
 	}
 	r := &Result{Obl: o, File: file, Status: "unknown"}
+	if o.Quick {
+		timeout, needTwo = 2, false
+	}
 	if o.Expect == "sat" {
 		// vacuity cover: only a definite unsat matters; do not spend time on a model
 		st, out, secs := runSolver(solvers[0], 2, file)
@@ -191,9 +194,26 @@ func (u *Universe) discharge(o *Obl, dir string, idx int, timeout int, needTwo b
 		r.Tried = append(r.Tried, fmt.Sprintf("%s=%s(%.2fs)", solvers[0].name, st, secs))
 		return r
 	}
-	// First try with the cone of influence of the goal only: dropping hypotheses is
+	// Step 1: the whole obligation, briefly (most discharge in a fraction of a second).
+	if st, out, secs := runSolver(solvers[0], 2, file); st == "unsat" || st == "sat" {
+		r.AllSecs += secs
+		r.Tried = append(r.Tried, fmt.Sprintf("%s=%s(%.2fs)", solvers[0].name, st, secs))
+		if st == "sat" {
+			r.Status, r.Solver, r.Secs, r.Output = "sat", solvers[0].name, secs, out
+			return r
+		}
+		r.Agree++
+		r.Status, r.Solver, r.Secs = "unsat", solvers[0].name, secs
+		if !needTwo {
+			return r
+		}
+	} else {
+		r.AllSecs += secs
+		r.Tried = append(r.Tried, fmt.Sprintf("%s=%s(%.2fs)", solvers[0].name, st, secs))
+	}
+	// Step 2: the cone of influence of the goal only: dropping hypotheses is
 	// sound for a proof, and large irrelevant prefixes drown the solvers.
-	if po := pruneObl(o); po != nil {
+	if po := pruneObl(o); po != nil && r.Status != "unsat" {
 		pfile := filepath.Join(dir, fmt.Sprintf("p%05d.smt2", idx))
 		if err := os.WriteFile(pfile, []byte(u.oblText(po, false)), 0o644); err == nil {
 			for _, s := range solvers[:2] {
@@ -215,6 +235,9 @@ func (u *Universe) discharge(o *Obl, dir string, idx int, timeout int, needTwo b
 		}
 	}
 	for _, s := range solvers {
+		if r.Status == "unsat" && strings.TrimSuffix(r.Solver, "[pruned]") == s.name {
+			continue // this solver already answered
+		}
 		st, out, secs := runSolver(s, timeout, file)
 		r.AllSecs += secs
 		r.Tried = append(r.Tried, fmt.Sprintf("%s=%s(%.2fs)", s.name, st, secs))
